@@ -310,3 +310,107 @@ def motif_deps_swap(rnd, sid):
     st = h.build(rnd, None, j=1, k=1, sched=rand_sched(rnd, 8))
     h.add(Step('build', st.line, g=st.g, sources=st.sources, targets=st.targets, opts=st.opts, repeat=True))
     return h
+
+# ------------------------------------------------------------------ C17: cycles
+def find_cycle(g, targets):
+    """ground truth: is there a dependency cycle among the statements needed for `targets`
+    (every input kind, dyndep information included; validation targets are additional roots)?  Returns a node list or None"""
+    prod = g.producer()
+    roots = list(targets); seenroots = set()
+    color = {}
+    def visit(e, path):
+        color[e.idx] = 1
+        for v in e.vals:
+            if v not in seenroots: roots.append(v)
+        for i in g.all_ins(e, with_hidden=False):
+            p = prod.get(i)
+            if p is None: continue
+            c = color.get(p.idx, 0)
+            if c == 1: return path + [i]
+            if c == 0:
+                r = visit(p, path + [i])
+                if r: return r
+        color[e.idx] = 2
+        return None
+    k = 0
+    while k < len(roots):
+        t = roots[k]; k += 1
+        if t in seenroots: continue
+        seenroots.add(t)
+        p = prod.get(t)
+        if p is None or color.get(p.idx, 0) == 2: continue
+        r = visit(p, [t])
+        if r: return r
+    return None
+
+def gen_cycle_history(rnd, sid):
+    feat = dict(deps=0.0, rsp=0.0, validations=0.3, generator=0.0, pools=0.2)
+    g = engine.gen_graph(rnd, rnd.randrange(2, 8), feat)
+    kind = rnd.choice(['none', 'manifest', 'manifest', 'dyndep-source', 'dyndep-built', 'validation-back'])
+    real = [e for e in g.edges]
+    prod = g.producer()
+    def pick_pair():
+        # A and B such that B depends on A
+        cands = [(a, b) for a in real for b in real if a is not b and b.idx in g.dependents_of(a)]
+        return rnd.choice(cands) if cands else None
+    pr = pick_pair()
+    if kind == 'validation-back' or (kind != 'none' and pr is None):
+        # a validation target that depends on the statement requesting it is NOT a cycle
+        if pr: a, b = pr; a.vals.append(rnd.choice(b.outs))
+        kind = 'validation-back'
+    elif kind == 'manifest':
+        a, b = pr; o = rnd.choice(b.outs)
+        where = rnd.choice(['exp', 'imp', 'oo']) if not a.phony else 'exp'
+        getattr(a, where).append(o)
+    elif kind.startswith('dyndep'):
+        a, b = pr
+        if a.phony:
+            kind = 'manifest'; a.exp.append(rnd.choice(b.outs))
+        else:
+            dd = 'ddc'; a.dyndep = dd; a.oo.append(dd)
+            g.dd_info[dd] = {a.out0: ([], [rnd.choice(b.outs)], False)}
+            text = engine.dd_text(g.dd_info[dd])
+            if kind == 'dyndep-source': g.sources[dd] = text
+            else:
+                pe = engine.Edge(950); pe.outs = [dd]; pe.exp = [rnd.choice(sorted(g.sources))]
+                ins0 = [pe]
+                if rnd.random() < 0.5:
+                    # the dyndep file's statement waits (order-only) behind a phony alias of an unrelated statement:
+                    # later the load is triggered by that phony statement completing
+                    g.sources['xsrc'] = 'x.0'
+                    xe = engine.Edge(951); xe.outs = ['xout']; xe.exp = ['xsrc']
+                    se = engine.Edge(952); se.phony = True; se.outs = ['stamp']; se.exp = ['xout']
+                    pe.oo = ['stamp']; ins0 = [xe, se, pe]; kind = 'dyndep-built-behind-phony'
+                g.edges[0:0] = ins0; g.ddtext[dd] = text
+    g.defaults = []
+    h = Hist(sid, g); h.cycle_kind = kind
+    outs = [o for e in g.edges for o in e.outs]
+    for i in range(rnd.randrange(1, 4)):
+        t = rnd.sample(outs, rnd.randrange(1, min(3, len(outs)) + 1))
+        if kind.startswith('dyndep') and rnd.random() < 0.7: t = list(set(t + [a.out0]))
+        if i and 'xsrc' in g.sources and rnd.random() < 0.8: h.edit('xsrc', 'x.%d' % rnd.randrange(100000))
+        elif i and rnd.random() < 0.3:
+            sname = rnd.choice(sorted(x for x in h.sources if not x.startswith('dd'))); h.edit(sname, 'e.%d' % rnd.randrange(100000))
+        h.build(rnd, t, j=rnd.choice([1, 2, 4]), k=rnd.choice([1, 0]), sched=rand_sched(rnd, 2 * len(g.edges) + 2))
+    return h
+
+def oracle_c17(h, st, b, prev=None):
+    g = st.g; prod = g.producer(); bad = []
+    cyc = find_cycle(g, st.targets or default_targets(g))
+    said = 'dependency cycle' in (b.err or '')
+    if cyc and not said:
+        bad.append('the requested targets need a dependency cycle (%s) but ninja ended with exit=%s "%s" after starting %s' % (' -> '.join(cyc), b.exit, (b.err or '')[:80], b.started))
+    if said:
+        if b.exit in (0, None): bad.append('"dependency cycle" reported but exit status %s' % b.exit)
+        m = b.err.split('dependency cycle: ', 1)[1].split('\n')[0] if 'dependency cycle: ' in b.err else ''
+        hops = m.split(' -> ')
+        if not cyc: bad.append('acyclic graph rejected as cyclic: %s' % m)
+        else:
+            if len(hops) < 2 or hops[0] != hops[-1]: bad.append('reported path is not closed: %s' % m)
+            for x, y in zip(hops, hops[1:]):
+                e = prod.get(x)
+                if e is None or y not in g.all_ins(e, with_hidden=False): bad.append('reported hop %s -> %s is not a dependency' % (x, y))
+            cyc_edges = {prod[x].out0 for x in hops if x in prod}
+            for o in b.started:
+                if o in cyc_edges: bad.append('command %s of the reported cycle was run' % o)
+    return bad or None
